@@ -16,6 +16,7 @@ import JubakoModel.Lemmas.FuncsSync
 import JubakoModel.Lemmas.FuncsParse
 import JubakoModel.Lemmas.NoCrash
 import JubakoModel.Lemmas.FuncsOpen
+import JubakoModel.Lemmas.FuncsCluster
 
 namespace Jubako
 
@@ -260,5 +261,25 @@ theorem c06_blind_open_is_source_open (f : Bytes) :
 theorem c06_pack_header_parser_is_source_parser (bs : Bytes) (h60 : bs.length = 60) :
     (Generated.packHeaderParse bs).map' (fun r => tupleToHeader r.1) = PackHeader.decode bs :=
   gen_packHeaderParse bs h60
+
+/-- **The one reachable `todo!()` of the entry-store reader is where the model has it**: `EntryStoreBuilder::parse`
+    with `StoreKind::parse`, translated on every run, on the tail block of an entry store: kind 0 then the layout;
+    kinds 1 and 2 panic (`todo!()`); any other kind is a format error — `modelEntryTail`, the part of
+    `entryStoreOpen` that looks at the tail (`entryStoreOpen_tail`). The kind byte sits behind the CRC of the tail
+    block. -/
+theorem c06_entry_store_tail_is_source_tail (f : Bytes) (so : Nat × Nat) (tb : Bytes) :
+    ((Generated.entryStoreBuilderParse tb (fun bs => (Layout.decode bs).map' (fun l => (l, ([] : Bytes))))).map' (·.1)).Same
+        (modelEntryTail tb) ∧
+    entryStoreOpen f so =
+      (readBlock f so.1 so.2).bind fun tb => (modelEntryTail tb).bind fun l =>
+        if l.checked then
+          let ds := l.entryCount * (l.entrySize + 4)
+          if so.1 < ds then .panic "offset.rs: subtraction underflow"
+          else if so.1 ≤ f.length then .ok (l, slice f (so.1 - ds) ds) else .err .format
+        else
+          let ds := l.entryCount * l.entrySize
+          if so.1 < ds + 4 then .panic "offset.rs: subtraction underflow"
+          else (readBlock f (so.1 - ds - 4) ds).bind fun d => .ok (l, d) :=
+  ⟨gen_entryStoreBuilderParse tb, entryStoreOpen_tail f so⟩
 
 end Jubako
